@@ -98,11 +98,15 @@ func c12(c *Ctx) {
 	r.Rule("R12.1", "for each call site in RP whose callees (closed-world graph) include a function with an error result that reaches a block load, path-sensitive check from the call to every exit: tested non-nil ⇒ the return carries that error or a wrapper of it; never tested ⇒ the return carries it, or a non-nil error chosen by a test on another result of the same call; enclosing functions without error result must be datamodel.Node methods or listed native accessors")
 	r.Rule("R12.2", "(decided together with R12.1) on the non-nil branch the returned error is that value or wraps it — a nil, io.EOF or not-found in its place is reported")
 	r.Rule("R12.4", "nothing is remembered about a failed load: a write to the state of a shared node (field store, map update through the receiver) that follows a load-carrying call in the same function is dominated by the nil outcome of that call's error — a verdict memoised after a failure would turn the unavailable block into not-found / empty on the next call")
+	r.Rule("R12.5", "a failed Read delivers nothing of its own: no Read method of the file readers returns a non-zero constant byte count (the count comes from the bytes actually copied or from the inner reader)")
+	r.Rule("R12.6", "a missing block is reported when the read reaches it, not earlier: sizing the children of a node opens none whose size is recorded (same obligation as R5.4) — otherwise the error of a later block replaces the bytes that precede it")
 	r.Rule("R12.3", "iterator Next/next methods with a wrapped cursor: every path to a return advances a wrapped cursor (calls its Next) or has seen Done(); after advancing a nilable child cursor every path tests its Done() and clears it on the true edge before returning, whatever the error")
 	L, reach := c.loadCarrying(core.ReaderPkgs, core.FetchSites)
 	r.Analysed["load_carrying_functions"] = len(L)
 	r.Analysed["functions_reaching_a_load"] = len(reach)
 	c.checkNoMemoAfterFailure(L)
+	c.checkReadCountOnFailure()
+	c.checkNoEarlyOpen()
 	var nodeIface *types.Interface
 	if pk := c.P.All["github.com/ipld/go-ipld-prime/datamodel"]; pk != nil {
 		if o := pk.Types.Scope().Lookup("Node"); o != nil {
@@ -526,4 +530,47 @@ func instrIndex(ins ssa.Instruction) int {
 		}
 	}
 	return -1
+}
+
+// checkReadCountOnFailure implements R12.5.
+func (c *Ctx) checkReadCountOnFailure() {
+	r := c.R
+	n := 0
+	for _, fn := range c.G.Funcs() {
+		rel, ok := c.P.PkgOf(fn)
+		if !ok || rel != "file" || fn.Synthetic != "" || !readSig(fn) {
+			continue
+		}
+		n++
+		var bad []string
+		for _, ret := range core.Returns(fn) {
+			rr := core.ResolvedResults(ret)
+			if k, isK := core.ConstInt(rr[0]); isK && k != 0 {
+				bad = append(bad, fmt.Sprintf("return at %s reports the constant count %d", c.P.Pos(ret.Pos()), k))
+			}
+		}
+		r.Check(len(bad) == 0, "R12.5", core.FuncName(fn)+"/count-is-real", c.P.Pos(fn.Pos()), "byte counts are never constants other than 0", uniqJoin(bad))
+	}
+	r.Floor("R12.5", n, 3)
+}
+
+// checkNoEarlyOpen implements R12.6 by re-running R5.4's size-query obligations.
+func (c *Ctx) checkNoEarlyOpen() {
+	r := c.R
+	fetch := c.G.Fetchers(core.ReaderPkgs)
+	reach := c.G.ReachersOf(fetch)
+	saved := c.R
+	tmp := core.NewReport("tmp", "")
+	c.R = tmp
+	c.checkSkipBeforeOpen(reach, fetch)
+	c.R = saved
+	n := 0
+	for _, o := range tmp.Obls {
+		if !strings.HasSuffix(o.Key, "/declared-size-paths") {
+			continue
+		}
+		n++
+		r.Check(o.Status == core.Discharged, "R12.6", strings.Replace(o.Key, "/declared-size-paths", "/no-early-open", 1), o.Pos, "children with a recorded size are not opened while sizes are computed", "a child can be opened (and its load error returned) before the read reaches it: "+o.Detail)
+	}
+	r.Floor("R12.6", n, 1)
 }
